@@ -75,6 +75,11 @@ def _all(tier):
     pipe(cat, ("evidence", {"0": 1}), ("square",))
     pipe(emb, ("evidence", {"2": 1}), ("evidence", {"0": 2}))
     pipe(cat, ("evidence", {"0": 0, "1": 1, "2": 2}))
+    # observations GIVEN in non-increasing order of the variable ids (ordered pairs, different values)
+    pipe(cat, ("evidence", [[2, 0], [0, 1]]), ordered=True)
+    pipe(cat, ("evidence", [[2, 2], [1, 0], [0, 1]]), ordered=True)
+    pipe(gau, ("evidence", [[2, 1.5], [0, -0.5]]), ordered=True)
+    pipe(rbt, ("evidence", [[3, 2], [1, 0], [0, 1]]), ("integrate", [2]), ordered=True)
     # concatenate
     pipe(cat, ("concatenate", 2))
     pipe(shared, ("concatenate", 3))
@@ -97,8 +102,8 @@ def cases(tier, seed):
         return ["sum-product", "complex-lse-sum"] if "poly" in str(c) else ["sum-product", "lse-sum", "complex-lse-sum"]
 
     if tier == "quick":
-        cc_ = [c for c in allc if "concat" in str(c["circuit"]["ops"])]
-        rest = [c for c in allc if "concat" not in str(c["circuit"]["ops"])]
+        cc_ = [c for c in allc if "concat" in str(c["circuit"]["ops"]) or c.get("ordered")]
+        rest = [c for c in allc if c not in cc_]
         rnd.shuffle(rest)
         for i, c in enumerate(cc_ + rest[:30]):
             ss = sems_for(c)
